@@ -272,3 +272,12 @@ package codec
 //@ func (*Codec).decodeRoot
 //@   assert at return#3 exhausted: err == io.EOF
 //@   assert at return#5 trailing: result0 != nil
+
+// a map key is stored once (C03): a repeated key is an error, never last-one-wins
+// (the set of seen keys is made by the enclosing function just before: captured non-nil, ASSUMED on entry)
+//@ func (*decoder).decodeMapField$1
+//@   free requires *seen != nil
+//@   assert at SetGoValue#0 once: !old(has(*seen, keyTokenStr)) && arg0 == keyTokenStr
+//@ func (*decoder).decodeMapField$2
+//@   free requires *seen != nil
+//@   assert at SetEnum#0 once: !old(has(*seen, keyTokenStr)) && arg0 == keyTokenStr
